@@ -32,6 +32,8 @@ type Case struct {
 	Steps      []Step       `json:"steps"`
 	Metric     pbt.S        `json:"metric"`
 	Passes     int          `json:"passes"`
+	// Caps: what the recording reporter says about itself (rec.CapsOf): advisory only
+	Caps int `json:"caps,omitempty"`
 }
 
 // dedupe makes sure no two keys of one map sanitize to the same key (the
@@ -128,6 +130,7 @@ func gen(t *rapid.T) Case {
 	}
 	c.Metric = nm.Draw(t, "metric")
 	c.Passes = rapid.IntRange(1, 3).Draw(t, "passes")
+	c.Caps = rapid.SampledFrom([]int{0, 0, 0, 1, 2, 3}).Draw(t, "caps")
 	return c
 }
 
@@ -199,12 +202,14 @@ func run(c Case) (pbt.Outcome, error) {
 	switch c.Mode {
 	case "plain":
 		r := rec.NewStats()
+		r.Caps = rec.CapsOf(c.Caps)
 		log = r.L
 		opts.Reporter = r
 		root, _ = tally.NewRootScope(opts, 0)
 		ms = model.NewRoot(string(c.Prefix), string(c.Sep), rootTagsBefore, mo)
 	case "cached":
 		r := rec.NewCached()
+		r.Caps = rec.CapsOf(c.Caps)
 		log = r.L
 		opts.CachedReporter = r
 		root, _ = tally.NewRootScope(opts, 0)
